@@ -77,6 +77,44 @@ func c03One(k *core.Case, m *abs.Msg) {
 	}
 }
 
+// refusedEncodes builds out-of-domain messages whose encoding must fail part-way through (the first nested element is
+// valid, a later one is not) and encodes them: the error paths of the encoder are exercised so that state they may
+// leave behind (pooled or cached buffers) shows up in the domain round trips that follow in the same process.
+func refusedEncodes(k *core.Case) {
+	r := k.R
+	okT := abs.Transform{Type: 1, ID: 12, HasAttr: true, TV: true, AttrType: 14, AttrVal: 128}
+	okP := abs.Proposal{Num: 1, Proto: 1, SPI: gen.DataN(r, 4), Transforms: []abs.Transform{okT, {Type: 3, ID: 2}}}
+	okSel := gen.Selector(r)
+	bad := []abs.Payload{
+		{Kind: abs.PSA, SA: &abs.SA{Proposals: []abs.Proposal{okP, {Num: 2, Proto: 3}}}},                                                                   // second proposal without transforms
+		{Kind: abs.PSA, SA: &abs.SA{Proposals: []abs.Proposal{okP, okP, {Num: 3, Proto: 1, SPI: gen.DataN(r, 256), Transforms: []abs.Transform{okT}}}}},   // SPI too long
+		{Kind: abs.PSA, SA: &abs.SA{Proposals: []abs.Proposal{{Num: 1, Proto: 1, Transforms: []abs.Transform{okT, {Type: 2, ID: 5, HasAttr: true}}}}}},    // TLV without value
+		{Kind: abs.PTSi, TS: &abs.TS{Sel: []abs.Selector{okSel, {Type: 7, StartAddr: gen.DataN(r, 5), EndAddr: gen.DataN(r, 4)}}}},                        // bad address length
+		{Kind: abs.PTSr, TS: &abs.TS{Sel: []abs.Selector{okSel, okSel, {Type: 9}}}},                                                                        // unsupported selector type
+		{Kind: abs.PCP, CP: &abs.CP{Type: 1, Attrs: []abs.CPAttr{{Type: 1, Value: gen.DataN(r, 4)}, {Type: 2, Value: gen.DataN(r, 70000)}}}},              // attribute too long
+		{Kind: abs.PNotify, Notify: &abs.Notify{Type: 1, SPI: gen.DataN(r, 256)}},                                                                          // SPI too long
+		{Kind: abs.PDelete, Delete: &abs.Delete{Proto: 3, SPISize: 4, Num: 3, SPIs: []uint32{1, 2}}},                                                        // count mismatch
+		{Kind: abs.PEAP, EAP: &abs.EAP{Code: 1, ID: 1, Method: &abs.Method{Type: abs.MIdentity}}},                                                          // empty identity
+		{Kind: abs.PSK, SK: &abs.SK{}},                                                                                                                      // empty SK
+		{Kind: abs.PNonce, Data: gen.DataN(r, 65533)},                                                                                                      // payload beyond the 16-bit length
+	}
+	n := 1 + r.Intn(3)
+	for i := 0; i < n; i++ {
+		m := gen.Header(r)
+		// valid payloads first, the refused one last: the container encoder is part-way through as well
+		for j := 0; j < r.Intn(3); j++ {
+			m.Payloads = append(m.Payloads, gen.Payload(r, gen.AllKinds()[r.Intn(len(gen.AllKinds()))]))
+		}
+		m.Payloads = append(m.Payloads, bad[r.Intn(len(bad))])
+		_, err, p := libEncode(m)
+		if p != nil {
+			k.Count("refused_encode_panicked(not judged here)", 1)
+		} else if err != nil {
+			k.Count("refused_encodes", 1)
+		}
+	}
+}
+
 func c03(c *core.Ctx) {
 	cm := corpusMsgs()
 	c.Family("corpus", len(cm), func(k *core.Case) { c03One(k, cm[k.Index]) })
@@ -89,6 +127,17 @@ func c03(c *core.Ctx) {
 	c.Family("mixed", c.N(80000, 12000000), func(k *core.Case) {
 		c03One(k, gen.Msg(k.R, gen.Opt{AllowBig: true, AllowEmpty: true}))
 	})
+	c.Family("after-refused-encode", c.N(8000, 1000000), func(k *core.Case) {
+		refusedEncodes(k)
+		m := gen.Header(k.R)
+		kinds := gen.AllKinds()
+		m.Payloads = []abs.Payload{gen.Payload(k.R, kinds[k.Index%len(kinds)])}
+		if k.R.Bool() {
+			m = gen.Msg(k.R, gen.Opt{AllowEmpty: true})
+		}
+		c03One(k, m)
+	})
+	c.Require("refused_encodes")
 	c.Family("big", c.N(1200, 120000), func(k *core.Case) {
 		m := gen.Header(k.R)
 		m.Payloads = []abs.Payload{gen.Big(k.R)}
@@ -372,6 +421,10 @@ func c05(c *core.Ctx) {
 		k.Distinct(fmt.Sprintf("limit|ok|%d|%d", p.Kind, total))
 	})
 	c.Require("at_limit_refused_with_error", "at_limit_encoded_ok")
+	c.Family("fwd-after-refused-encode", c.N(6000, 600000), func(k *core.Case) {
+		refusedEncodes(k)
+		c05Forward(k, gen.Msg(k.R, gen.Opt{AllowEmpty: true, MaxPayloads: 4}))
+	})
 	c.Family("bwd-single", c.N(15000, 1000000), func(k *core.Case) {
 		m := gen.Header(k.R)
 		kinds := gen.AllKinds()
